@@ -216,3 +216,31 @@ Theorem C03_response_close_delimited_lengths : forall cb g rq r (cuts : list (li
     t_response_progress t = c_HTP_RESPONSE_COMPLETE.
 Proof. exact sr_response_close_counted. Qed.
 Print Assumptions C03_response_close_delimited_lengths.
+
+(* ---- RESPONSE direction, answers without a body and interim responses: EVERY chunking of request and response gives the same transaction list (full equality
+        with a reference transaction that does not depend on the chunking) ---- *)
+Require Import Htp.Model.Base Htp.Model.MBstr Htp.Model.MConnTypes Htp.Model.MTxCommon Htp.Model.MResLine Htp.Model.MTxRes.
+Require Import Htp.Model.MReq Htp.Model.MRes Htp.Model.MConnp.
+Require Import Htp.Spec.SWire Htp.Proof.PWire Htp.Proof.PWireHdr Htp.Proof.PWireBlock Htp.Proof.PWireConn Htp.Proof.PWireExch.
+Require Import Htp.Proof.PWireRun Htp.Proof.PWirePres Htp.Proof.PWireGlue Htp.Proof.PSeg Htp.Proof.PSegLine Htp.Proof.PSegHdr Htp.Proof.PSegGen Htp.Proof.PSegRun.
+Require Import Htp.Proof.PSegFold Htp.Proof.PSegPipe Htp.Proof.PSegRes Htp.Proof.PSegResLine Htp.Proof.PSegResHdr Htp.Proof.PSegResGen Htp.Proof.PSegResRun Htp.Proof.PSegResReq Htp.Proof.PSegResThm Htp.Proof.PSegResCanon.
+Require Import Htp.Proof.PPair Htp.Proof.PPairLine Htp.Proof.PPairHdr Htp.Proof.PPairRun Htp.Proof.PPairOne Htp.Proof.PPairFin Htp.Proof.PPairA Htp.Proof.PPairReq Htp.Proof.PPairB Htp.Proof.PPairThm Htp.Proof.PPairThmB.
+Require Import Htp.Proof.PSegResNb Htp.Proof.PSegResNbThm Htp.Proof.PSegRes100.
+Require Import Htp.Proof.PSegRes100Thm.
+Theorem C03_no_body_answer_chunking : forall cb g x1 (qchunks schunks : list bytes),
+  wr_all_ok cb -> g_allow_space_uri g = false -> (g_max_tx g = 0 \/ 2 < g_max_tx g)%nat -> nb_xc_ok g x1 = true ->
+  Forall (fun c => c <> []) qchunks -> concat qchunks = wr_request_wire (xq x1) ->
+  Forall (fun c => c <> []) schunks -> concat schunks = nb_xwire x1 ->
+  exists k1 fl1, c_txs (fst (cp_run cb g connp_new (OpOpen :: map OpReqData qchunks ++ map OpResData schunks))) = [pr_slot g (nb_tfin (nb_ex_of g k1 fl1 x1))].
+Proof. exact nb_response_chunking. Qed.
+Theorem C03_interim_100_chunking : forall cb g rq (sts : list i_stage) rF cutsF bodyF (qchunks schunks : list bytes),
+  wr_all_ok cb -> g_allow_space_uri g = false -> (g_max_tx g = 0 \/ 1 < g_max_tx g)%nat -> sg_req_ok g rq = true ->
+  i100_premise g rq sts rF cutsF bodyF ->
+  Forall (fun c => c <> []) qchunks -> concat qchunks = wr_request_wire rq ->
+  Forall (fun c => c <> []) schunks -> concat schunks = is_wires sts ++ sr_wire rF cutsF bodyF ->
+  pp_f1_free [mk_pp_xc rq rF cutsF bodyF] schunks = true ->
+  exists k fl, c_txs (fst (cp_run cb g connp_new (OpOpen :: map OpReqData qchunks ++ map OpResData schunks))) =
+               [pr_slot g (i100_tfin (sg_tfin_r g k rq fl) sts rF cutsF bodyF)].
+Proof. exact i100_chunking. Qed.
+Print Assumptions C03_no_body_answer_chunking.
+Print Assumptions C03_interim_100_chunking.
